@@ -428,3 +428,159 @@ Definition withdrawn_of (o : option (bool * N)) : option (bool * N) :=
 (* no source names the id the register hands out next as its parent (ids are handed out in order: C14) *)
 Definition next_id_unused (r : reg) : Prop :=
   forall id inf, infos r !! id = Some inf -> i_parent inf <> Some (serial r).
+
+(* ------------------------------------------------------------------ *)
+(* A bgp-tcp-in unit in the pipeline (src/units/bgp_tcp_in/unit.rs
+   BgpTcpInRunner::run, the accept loop: every accepted TCP connection is
+   counted; the peer table of the configuration the unit holds AT THAT MOMENT
+   (`arc_self.bgp.load()`, stored by the Reconfiguring arm of process_until) is
+   asked for the remote address; a hit starts a session with that configuration
+   and with an ingress id registered for THIS connection
+   (`arc_self.ingresses.register()` in the argument list of accept_config), a
+   miss drops the connection. router_handler.rs Processor::process: routes are
+   stored under the connection's id; the block after the loop sends
+   Update::Withdraw(that id, None); arm GateStatus::Reconfiguring: the session
+   ends when the new configuration differs from the one it was ACCEPTED with in
+   my_asn / my_bgp_id / listen, or no longer has its peer entry (counted as a
+   disconnect), or has another remote_asn / hold_time in it.)
+
+   The engine's speakers have the addresses 0..4 (127.0.0.30 .. 127.0.0.34);
+   a peer entry is a number (1: hold_time 90, 2: hold_time 120), my_asn is a
+   number (0: 64512, 1: 64513); `listen` never changes. A session's key in the
+   pipeline model (WBgpOpen b ...) is its speaker's address. *)
+
+Record bcfg := MkBcfg { bc_asn : N; bc_peers : gmap N N }.
+
+Definition bgp_addrs : list N := [0; 1; 2; 3; 4]%N.
+Definition is_bgp_addr (k : N) : bool := (k <? 5)%N.
+
+Record bstate := MkBs {
+  bs_e : estate;                 (* the pipeline: sessions and register (es_w), RIB units, files, the property's reading *)
+  bs_file : bcfg;                (* [units.bgp-in] as the operator left it; effective with the next load *)
+  bs_cfg : bcfg;                 (* what the unit holds (BgpTcpInRunner.bgp) *)
+  bs_sess : gmap N (N * N);      (* address -> (my_asn, peer entry) its live session was accepted with (Processor.unit_cfg) *)
+  bs_accepted : N;               (* bgp_tcp_in_connection_accepted_count *)
+  bs_lost : N;                   (* bgp_tcp_in_connection_lost_count *)
+  bs_disc : N }.                 (* bgp_tcp_in_disconnect_count *)
+
+Inductive bop :=
+| BE (o : eop)                   (* BMP traffic, edits of script / rib2 / vRIBs (a reload: BReload) *)
+| BPeer (k : N) (v : option N)   (* the operator takes [peers."<k>"] out / writes entry v *)
+| BAsn (a : N)                   (* the operator edits my_asn *)
+| BOpen (k : N)                  (* TCP connection from address k, OPEN *)
+| BUpd (k : N) (u : upd)         (* an UPDATE on the session of address k *)
+| BClose (k : N)                 (* the speaker closes the connection (FIN, or NOTIFICATION and FIN) *)
+| BReload (unheard : list N).    (* SIGHUP. `unheard`: see b_step *)
+
+Definition b_init_with (e : estate) (c : bcfg) : bstate := MkBs e c c ∅ 0 0 0.
+Definition bcfg_init : bcfg := MkBcfg 0 (<[0%N := 1%N]> (<[1%N := 1%N]> ∅)).
+Definition b_init (s0 : script) (n0 : N) : bstate := b_init_with (e_init_v s0 n0) bcfg_init.
+
+(* the session of address k, accepted with (my_asn, entry) = sv, goes on under configuration c *)
+Definition sess_stays (c : bcfg) (k : N) (sv : N * N) : bool :=
+  (bc_asn c =? sv.1)%N && bool_decide (bc_peers c !! k = Some sv.2).
+(* ... or ends as `deconfigured` (the only reconfiguration exit that is counted as a disconnect) *)
+Definition sess_deconfigured (c : bcfg) (k : N) (sv : N * N) : bool :=
+  (bc_asn c =? sv.1)%N && bool_decide (bc_peers c !! k = None).
+
+(* the session of address k ends and nobody downstream hears of it (what the
+   property asks for does not depend on that: the session is over) *)
+Definition e_bgp_lose (st : estate) (k : N) : estate :=
+  let w := es_w st in
+  MkEs (MkWorld (w_reg w) (w_unit w) (w_routers w) (w_rib w) (delete k (w_bgp w)) (w_bgp_conns w) (w_ids w))
+       (es_file st) (es_scripts st) (es_compiled st) (es_rib st) (es_rib2kind st) (es_rib2 st)
+       (sstep (es_s st) (WBgpClose k)).1
+       (match es_rib2 st, es_s2 st with
+        | Some _, Some s2 => Some (sstep s2 (WBgpClose k)).1
+        | _, _ => None
+        end)
+       (es_vribs st).
+
+(* the sessions a load of configuration c ends *)
+Definition b_ended (c : bcfg) (sess : gmap N (N * N)) : list N :=
+  List.filter (fun k => match sess !! k with Some sv => negb (sess_stays c k sv) | None => false end) bgp_addrs.
+
+Definition b_end_session (unheard : list N) (e : estate) (k : N) : estate :=
+  if bool_decide (k ∈ unheard) then e_bgp_lose e k else e_step false e (EW (WBgpClose k)).
+
+(* BReload unheard. A session that the load ends sends its Withdraw through its
+   clone of the unit's gate right after the gate has taken over the subscription
+   table of the NEW gate (comms.rs, GateCommand::Reconfigure: `self.updates.
+   replace(new_updates)`, then FollowReconfigure to the clones) - a table the
+   RIB units enter only when their own Reconfigure has made them subscribe
+   again. Whether the Withdraw finds the RIB unit there is a race between the
+   two units; `unheard` names the sessions that lose it (known finding
+   C13-bgp-reload-end-unheard). The schedule the property needs is [] . *)
+Definition b_step (st : bstate) (o : bop) : bstate :=
+  match o with
+  | BE EReload => st
+  | BE o => MkBs (e_step false (bs_e st) o) (bs_file st) (bs_cfg st) (bs_sess st) (bs_accepted st) (bs_lost st) (bs_disc st)
+  | BPeer k v =>
+      let f := bs_file st in
+      MkBs (bs_e st) (MkBcfg (bc_asn f) (match v with Some v => <[k := v]> (bc_peers f) | None => delete k (bc_peers f) end))
+           (bs_cfg st) (bs_sess st) (bs_accepted st) (bs_lost st) (bs_disc st)
+  | BAsn a =>
+      MkBs (bs_e st) (MkBcfg a (bc_peers (bs_file st))) (bs_cfg st) (bs_sess st) (bs_accepted st) (bs_lost st) (bs_disc st)
+  | BOpen k =>
+      if negb (is_bgp_addr k) then st
+      else match bs_sess st !! k with
+      | Some _ => st                                       (* the engine opens one connection per address *)
+      | None =>
+          match bc_peers (bs_cfg st) !! k with
+          | Some v =>
+              MkBs (e_step false (bs_e st) (EW (WBgpOpen k))) (bs_file st) (bs_cfg st)
+                   (<[k := (bc_asn (bs_cfg st), v)]> (bs_sess st)) (bs_accepted st + 1) (bs_lost st) (bs_disc st)
+          | None =>
+              MkBs (bs_e st) (bs_file st) (bs_cfg st) (bs_sess st) (bs_accepted st + 1) (bs_lost st) (bs_disc st)
+          end
+      end
+  | BUpd k u =>
+      match bs_sess st !! k with
+      | Some _ => MkBs (e_step false (bs_e st) (EW (WBgpUpdate k (Some u)))) (bs_file st) (bs_cfg st) (bs_sess st)
+                       (bs_accepted st) (bs_lost st) (bs_disc st)
+      | None => st
+      end
+  | BClose k =>
+      match bs_sess st !! k with
+      | Some _ => MkBs (e_step false (bs_e st) (EW (WBgpClose k))) (bs_file st) (bs_cfg st) (delete k (bs_sess st))
+                       (bs_accepted st) (bs_lost st + 1) (bs_disc st)
+      | None => st
+      end
+  | BReload unheard =>
+      let c := bs_file st in
+      let ended := b_ended c (bs_sess st) in
+      let e1 := fold_left (b_end_session unheard) ended (bs_e st) in
+      let nd := length (List.filter (fun k => match bs_sess st !! k with Some sv => sess_deconfigured c k sv | None => false end) ended) in
+      MkBs (e_step false e1 EReload) c c (fold_left (fun m k => delete k m) ended (bs_sess st))
+           (bs_accepted st) (bs_lost st) (bs_disc st + N.of_nat nd)
+  end.
+
+Definition b_run (st : bstate) (h : list bop) : bstate := fold_left b_step h st.
+
+(* the configuration of the latest load, from the operations alone *)
+Definition bcfg_edit (f : bcfg) (o : bop) : bcfg :=
+  match o with
+  | BPeer k v => MkBcfg (bc_asn f) (match v with Some v => <[k := v]> (bc_peers f) | None => delete k (bc_peers f) end)
+  | BAsn a => MkBcfg a (bc_peers f)
+  | _ => f
+  end.
+Fixpoint b_loaded (f cur : bcfg) (h : list bop) : bcfg :=
+  match h with
+  | [] => cur
+  | BReload _ :: t => b_loaded f f t
+  | o :: t => b_loaded (bcfg_edit f o) cur t
+  end.
+
+(* readings for statements *)
+Definition b_world (st : bstate) : world := es_w (bs_e st).
+Definition b_session_id (st : bstate) (k : N) : option N :=
+  match w_bgp (b_world st) !! k with Some (id, _) => Some id | None => None end.
+Definition b_rib_lookup (st : bstate) (key : rkey) : option (bool * N) := rib_lookup (ru_rib (es_rib (bs_e st))) key.
+Definition b_spec_lookup (st : bstate) (f p : N) (x : wid) : option (bool * N) := s_rib (es_s (bs_e st)) !! (f, p, x).
+(* no live session has the id the register hands out next (ids are handed out in order: C14; fails only after the serial wraps) *)
+Definition bgp_next_id_unused (st : bstate) : Prop :=
+  forall k id c, w_bgp (b_world st) !! k = Some (id, c) -> id <> serial (w_reg (b_world st)).
+Definition b_sess_of (st : bstate) (k : N) : option (N * N) := bs_sess st !! k.
+Definition b_live (st : bstate) : list N :=
+  List.filter (fun k => match bs_sess st !! k with Some _ => true | None => false end) bgp_addrs.
+Definition b_peer_of (c : bcfg) (k : N) : option N := bc_peers c !! k.
